@@ -8,10 +8,8 @@ Transition = one edit (permute type decls, move an impl, swap bridge modules, in
              insert a non-bridge item); BFS from every seed; both orderings of an item multiset are separate states.
 Invariant  = per edge and backend, on sha1 of every generated file (see `check_edge`), plus 3 fresh processes per state.
 """
-import concurrent.futures as cf
 import difflib
 import json
-import multiprocessing
 import os
 import re
 import shutil
@@ -23,7 +21,6 @@ from vlib.common import (BACKENDS, REPO, MachineryError, Reporter, build_tool, d
                          run_tool, sha, workdir)
 
 RUNS_PER_STATE = 3          # fresh processes per (state, backend): RandomState differs in each
-COLLECTORS = 8             # worker processes that read and hash output trees
 RECHECK_RUNS = 12           # extra fresh processes when a re-run difference is being confirmed
 
 # Aggregate (index) files: they enumerate all types, so inserting / deleting a type legitimately changes them.
@@ -738,9 +735,9 @@ def load_crate(src_dir):
 # files cannot be recognised by name
 Edit = namedtuple("Edit", "kind desc subject renamed")
 
-PERMUTE = ("permute-types", "move-impl", "swap-modules")
+# edit kinds: permute-types, move-impl, swap-modules (output must not change at all); insert-type, delete-type (locality: see
+# check_edge); nonbridge (output must not change at all)
 LOCAL = ("insert-type", "delete-type")
-NONBRIDGE = ("nonbridge",)
 
 
 def _replace_file(st, fi, newf):
@@ -1013,7 +1010,6 @@ class Runner:
     def __init__(self, wd):
         self.wd = wd
         self.executions = 0
-        self.pool = None
 
     def write_src(self, tag, state):
         d = os.path.join(self.wd, "src", tag)
@@ -1071,14 +1067,8 @@ class Runner:
                     self._mark_stale(out)
                 else:
                     ok_dirs.append(out)
-        # reading + hashing: single-threaded worker processes (see class comment), a few dozen directories per request
-        if self.pool is None:
-            self.pool = cf.ProcessPoolExecutor(max_workers=COLLECTORS, mp_context=multiprocessing.get_context("fork"))
-        step = max(1, min(40, len(ok_dirs) // (COLLECTORS * 2) + 1))
-        chunks = [ok_dirs[i:i + step] for i in range(0, len(ok_dirs), step)]
-        hashed = {}
-        for chunk, hs in zip(chunks, self.pool.map(_collect_dirs, chunks)):
-            hashed.update(zip(chunk, hs))
+        # reading + hashing happens here, in the calling thread (see class comment)
+        hashed = {out: self._collect(out, False)[0] for out in ok_dirs}
         results = []
         for t, res in enumerate(raw):
             per = []
@@ -1087,11 +1077,6 @@ class Runner:
                 per.append((rc, None, err[-1500:]) if rc != 0 else (0, hashed[out], err[-500:]))
             results.append(per)
         return results
-
-    def close(self):
-        if self.pool is not None:
-            self.pool.shutdown()
-            self.pool = None
 
     def once(self, seed, src, backend, keep=False, pristine=True):
         """one fresh process into a brand-new directory (re-checks, called from the main thread only)
@@ -1105,10 +1090,6 @@ class Runner:
             return p.returncode, None, p.stderr[-1500:], None
         hashes, tree = self._collect(out, keep)
         return 0, hashes, p.stderr[-500:], tree
-
-
-def _collect_dirs(dirs):
-    return [Runner._collect(d, False)[0] for d in dirs]
 
 
 def tree_digest(h):
@@ -1133,6 +1114,8 @@ class Explorer:
         self.rep = rep
         self.tier = tier
         self.runner = Runner(wd)
+        st = os.stat(build_tool())
+        self.tool_sig = (st.st_mtime_ns, st.st_size)
         self.nodes = {}           # key -> Node
         self.edges = 0            # edit applications
         self.edge_checks = 0      # edit applications x backends compared
@@ -1182,7 +1165,15 @@ class Explorer:
         return "diplomat-tool %s <out> --entry <src>/lib.rs -s --config-file %s %s" % (
             backend, seed.config_file or "<nonexistent>", cfg)
 
+    def assert_tool_unchanged(self):
+        """the tool binary is shared with other checks and rebuilt from the working tree: if it was replaced while this exploration
+        was running, observations made before and after are not comparable"""
+        st = os.stat(build_tool())
+        if (st.st_mtime_ns, st.st_size) != self.tool_sig:
+            raise MachineryError("diplomat-tool binary was rebuilt while C14 was running (working tree edited concurrently); re-run")
+
     def report_rerun(self, n, b):
+        self.assert_tool_unchanged()
         # repeated trial: N more fresh processes, count the distinct trees
         trees = {}
         first = {}
@@ -1250,6 +1241,7 @@ class Explorer:
             self.nontrivial += 1
 
     def report_edge(self, parent, child, edit, b, files, why):
+        self.assert_tool_unchanged()
         cnt = self.reported.get((edit.kind, b), 0)
         if cnt >= 4:
             return
@@ -1388,7 +1380,7 @@ FULL = {}
 REDUCED = {"insert_combos": (("opaque", "first"), ("struct", "middle"), ("enum", "last")),
            "nonbridge_kinds": ("same-name-struct", "plain-mod", "outer-impl")}
 PERMDEL = {"insert_combos": (), "nonbridge_kinds": ()}          # permutations and deletions only
-FT_QUICK = {"perm_files": ("structs.rs", "attrs.rs"), "insert_files": ("attrs.rs", "result.rs"),
+FT_QUICK = {"perm_files": ("attrs.rs",), "insert_files": ("attrs.rs", "result.rs"),
             "insert_combos": (("opaque", "first"), ("struct", "last"), ("enum", "middle")),
             "nonbridge_files": ("lib.rs",), "nonbridge_kinds": ("same-name-struct", "plain-mod", "outer-impl", "fn")}
 FT_FULL = {"nonbridge_files": ("lib.rs", "structs.rs", "attrs.rs")}
@@ -1418,13 +1410,22 @@ def run(tier):
         if ex.truncated:
             ex.truncated.append({"seed": name, "depth": 0, "states_executed_at_this_depth": 0})
             continue
-        ex.explore(seed, opts_by_depth)
+        try:
+            ex.explore(seed, opts_by_depth)
+        except MachineryError as e:
+            if not rep.violations:
+                raise
+            # confirmed violations stay a verdict; the part that could not be explored is written down
+            per_seed[name] = {"not_explored": str(e)[:600]}
+            ex.truncated.append({"seed": name, "depth": 0, "reason": "machinery error after violations were already confirmed"})
+            ex.runner.clean_slots()
+            break
         ex.runner.clean_slots()
         per_seed[name] = {"depth": len(opts_by_depth), "alphabet_by_depth": [o or "FULL" for o in opts_by_depth],
                           "states": len(ex.nodes) - before[0], "edit_applications": ex.edges - before[1],
                           "wall_s": round(time.time() - t0, 1)}
-    ex.runner.close()
     shutil.rmtree(wd, ignore_errors=True)
+    ex.assert_tool_unchanged()
     n_states = len(ex.nodes)
     cov = {
         "states": n_states,
@@ -1452,7 +1453,13 @@ def run(tier):
         "hash-seed independence is a repeated trial, not an enumeration: every state is generated in %d fresh processes per backend "
         "(std RandomState is re-seeded per process); a HashMap-order leak that needs a rarer coincidence than that can be missed" % RUNS_PER_STATE,
         "aggregate (index) files excluded from the locality comparison after insert/delete of a type, determined by experiment: %s; "
-        "every other file whose base name does not contain the inserted/deleted type's name must be byte-identical" % json.dumps(AGGREGATES),
+        "every other file present before and after must be byte-identical; a file that appears / disappears must carry the inserted / "
+        "deleted type's name (skipped only when a rename attribute on the type or its module makes the file name unknowable)" % json.dumps(AGGREGATES),
+        "an insert / delete after which a backend no longer accepts the crate (tool exit != 0) leaves the domain 'all accepted modules'; "
+        "such states are listed under bound.states_not_accepted_by_a_backend_after_insert_or_delete and give no C14 verdict; a change of "
+        "exit status after a permutation or a non-bridge edit IS reported",
+        "every edge is compared with its parent state (not with a canonical ordering); since every state is reached from the seed by "
+        "such edges, all orderings explored are transitively equal",
         "two inherent impl blocks of the SAME type are never swapped with each other: that changes the order of methods, which the "
         "statement (order of bridge modules and of type declarations) does not promise to be irrelevant",
         "'unreferenced' for delete-type is decided textually (the name occurs nowhere outside the type's declaration and inherent impls)",
@@ -1465,14 +1472,11 @@ def replay(path):
     w = json.load(open(path))["witness"]
     build_tool()
     wd = workdir("C14-replay")
-    runner = Runner(wd)
     b = w["backend"]
     cfgfile = None
     if w.get("config_file"):
         cfgfile = os.path.join(wd, "config.toml")
         shutil.copy(os.path.join(REPO, "feature_tests", "config.toml"), cfgfile)
-    seed = Seed(w["seed"], None, config_file=cfgfile, use_default_configs=False)
-    seed.configs = lambda backend: w.get("configs", [])
 
     def gen(tag, files):
         d = os.path.join(wd, "src", tag)
